@@ -195,7 +195,7 @@ def build_case(desc):
     if omit:
         d["omit"] = omit
     atoms, info = host(d)
-    if omit:
+    if omit and any(not n.startswith("H") for v in omit.values() for n in v):
         # ballast chain: keeps the missing fraction below REPAIR_LIMIT (0.1)
         # so that the repair path, not the refusal path, is exercised
         nb = 20
@@ -554,4 +554,29 @@ def neutral_cases():
                 for di in range(14):
                     out.append({"x": x, "pos": pos, "ff": "PARSE", "opt": opt,
                                 "env": [["water", t, di, 2.8]]})
+    return out
+
+
+def omit_h_cases(ff, names=None, opts=("default",)):
+    """Input WITH hydrogens (3-decimal precision) from which one hydrogen is
+    missing: it must be rebuilt next to its input siblings."""
+    out = []
+    for opt in opts:
+        for x in (names or corpus.INPUT_NAMES):
+            for pos in corpus.POSITIONS:
+                for h in hydrogens_of(x, pos):
+                    out.append({"x": x, "pos": pos, "ff": ff, "opt": opt,
+                                "hydrogens": True, "env": [["omit", [h]]]})
+    return out
+
+
+def omit_backbone_cases(ff, names=None):
+    """One backbone heavy atom missing (rebuilt from the neighbouring
+    residues' atoms through the N+1 / C-1 pseudo atoms)."""
+    out = []
+    for x in (names or T.AMINO):
+        for pos in corpus.POSITIONS:
+            for a in ("O", "C", "N", "CA"):
+                out.append({"x": x, "pos": pos, "ff": ff, "opt": "default",
+                            "env": [["omit", [a]]]})
     return out
